@@ -2,7 +2,7 @@
 import ast
 
 from ..core import (AnalysisError, access_path, const, find_all, match, short,
-                    src, walk_no_nested, parent, ancestors)
+                    src, walk_no_nested, parent, ancestors, call_name)
 from ..cfg import cfg_of
 from .. import util as U
 
@@ -24,7 +24,13 @@ def run(ctx):
         'calculate_pressure_drop and Assembly.write agree per region class',
         'R4 static ff/fs have one writer; Assembly adds a finished region '
         'exactly once under the region-change guard; the step call passes the '
-        'new height']
+        'new height',
+        'R7 the grid positions are a user-ordered list (stored as given): '
+        'no decision or value may depend on one fixed element or proper slice '
+        'of it ([-1], [0], [1:]) -- that would assume an ordering nothing '
+        'establishes -- unless the list is sorted where it is stored; the '
+        'per-step accumulation of the grid loss is conditioned on nothing '
+        'but the presence of grids']
     ctx.not_decided += ['equality with the closed forms as numbers',
                         'dimension (Pa) -- see D_dim rule once armed']
     r1(ctx)
@@ -32,6 +38,8 @@ def run(ctx):
     r3(ctx)
     r4(ctx)
     r6(ctx)
+    r7(ctx)
+    ctx.min_instances('C14.R7', 2)
     ctx.min_instances('C14.R1', 2)
     ctx.min_instances('C14.R2', 8)
     ctx.min_instances('C14.R3', 6)
@@ -423,3 +431,63 @@ def r6(ctx):
                     ctx.advisory('C14.R6', fi, n, 'tolerance assertion on a '
                                  'difference without abs(): only one sign of '
                                  'the error is caught')
+
+
+# ---------------------------------------------------------------------------
+# R7: no ordering assumption on the grid positions
+
+def r7(ctx):
+    repo = ctx.repo
+    GZ = "corr_constants['grid']['z']"
+    stores = []
+    for fi in repo.all_funcs():
+        for t, st in U.stores(fi.node):
+            if ' '.join(src(t).split()).endswith(GZ) and isinstance(
+                    st, ast.Assign):
+                stores.append((fi, st))
+    if not stores:
+        raise AnalysisError("no store to corr_constants['grid']['z']")
+    sorted_at_store = all(
+        isinstance(st.value, ast.Call) and (call_name(st.value) or '') in (
+            'sorted', 'np.sort', 'np.unique') for _, st in stores)
+    ctx.ok('C14.R7', stores[0][0], stores[0][1],
+           'grid positions stored %s' % ('sorted' if sorted_at_store
+                                         else 'in user order'))
+    n = 0
+    for fi in repo.all_funcs():
+        if fi.mod.name.startswith('dassh.plot'):
+            continue
+        for x in walk_no_nested(fi.node):
+            if not (isinstance(x, ast.Subscript) and isinstance(
+                    x.ctx, ast.Load) and ' '.join(src(x).split()).endswith(
+                        GZ)):
+                continue
+            n += 1
+            up = parent(x)
+            one = isinstance(up, ast.Subscript) and up.value is x and (
+                isinstance(up.slice, ast.Slice) or
+                isinstance(up.slice, (ast.Constant, ast.UnaryOp)))
+            ctx.require(not one or sorted_at_store, 'C14.R7', fi, up if one
+                        else x, 'reads %s of the grid positions, which are '
+                        'kept in the order the user listed them: grids '
+                        'listed in another order are handled differently'
+                        % (src(up) if one else ''),
+                        key='%s | single grid position' % fi.full)
+    # the accumulation site is conditioned only on the presence of grids
+    for mod, cls in REGION_CLASSES:
+        ci = repo.cls(mod, cls)
+        m = ci.methods.get('calculate_pressure_drop')
+        if m is None:
+            continue
+        for st in walk_no_nested(m.node):
+            if isinstance(st, ast.AugAssign) and 'spacer_grid' in \
+                    src(st.target):
+                bad = [src(t) for t, p in U.guards(st)
+                       if ' '.join(src(t).split()) not in (
+                           "'grid' in self.corr_constants.keys()",
+                           "'grid' in self.corr_constants")]
+                ctx.require(not bad, 'C14.R7', m, st,
+                            'the per-step grid loss is accumulated only '
+                            'under %s: steps for which that is false lose '
+                            'their grids' % bad,
+                            key=m.full + ' | accumulation guard')
